@@ -42,25 +42,21 @@ Definition consistentb (s : st) (e : Z) : bool :=
   (peek (s_period s) =? Z.min ((n - 1) / p_epp p) (p_max p)) &&
   (p_started p || (n =? 1)).
 
-Definition dist_okb (p : params) : bool :=
-  (0 <=? p_staking p) && (0 <=? p_community p) && (0 <=? p_strategic p) &&
-  (p_staking p + p_strategic p + p_community p =? PREC).
+Definition prov_okb (p : params) (c : Z) : bool :=
+  if c / p_epp p <? p_max p then 0 <? poly_provision p (c / p_epp p) else true.
 
-Definition prov_okb (zp : bool) (p : params) (c : Z) : bool :=
-  if c / p_epp p <? p_max p then (if zp then PREC else 1) <=? poly_provision p (c / p_epp p) else true.
-
-Fixpoint hist_okb (zp : bool) (E M : Z) (p : params) (c e : Z) (ops : list op) : bool :=
+Fixpoint hist_okb (E M : Z) (p : params) (c e : Z) (ops : list op) : bool :=
   match ops with
   | [] => true
   | o :: r =>
       match o with
       | EpochEnd true e' =>
-          (e' =? e) && (0 <=? e) && (e <? two62) && (implb (p_enabled p) (prov_okb zp p c && dist_okb p)) &&
-          hist_okb zp E M p (if p_enabled p then c + 1 else c) (e + 1) r
+          (e' =? e) && (0 <=? e) && (e <? two62) && (implb (p_enabled p) (prov_okb p c && dist_okb p)) &&
+          hist_okb E M p (if p_enabled p then c + 1 else c) (e + 1) r
       | Fund _ => false
       | _ =>
           let p' := next_params p o in
-          (p_epp p' =? E) && (p_max p' =? M) && hist_okb zp E M p' c e r
+          (p_epp p' =? E) && (p_max p' =? M) && hist_okb E M p' c e r
       end
   end.
 
@@ -74,11 +70,18 @@ Definition pre (c : case) : bool :=
   | None => false
   | Some e =>
       consistentb s e && (s_module s =? 0) && smallb (p_epp p) (p_max p) && (0 <=? peek (s_skipped s)) &&
-      hist_okb (c_zp c) (p_epp p) (p_max p) p (n_of s e - 1) e ops
+      hist_okb (p_epp p) (p_max p) p (n_of s e - 1) e ops
   end.
 
 Definition start_q (c : case) : sst :=
   {| q_params := s_params (c_init c);
      q_c := match first_day (map fst (c_tr c)) with Some e => n_of (c_init c) e - 1 | None => 0 end |}.
 
-Definition violates (c : case) : bool := pre c && negb (Pb_trace (start_q c) (c_tr c)).
+(** stray coins are never negative *)
+Definition funds_ok (c : case) : bool :=
+  (0 <=? s_module (c_init c)) && forallb (fun x => match fst x with Fund a => 0 <=? a | _ => true end) (c_tr c).
+
+(** the schedule where it is claimed ([pre]); the distribution on EVERY trace *)
+Definition violates (c : case) : bool :=
+  (pre c && negb (Pb_trace (start_q c) (c_tr c))) ||
+  (funds_ok c && negb (Pb_dist (s_params (c_init c)) (s_module (c_init c)) (c_tr c))).
